@@ -501,6 +501,10 @@ func (e *Enc) globalFacts(g *ssa.Global, init Term, t types.Type) {
 }
 
 func (e *Enc) bytesGlobalFacts(init Term, bs []byte) {
+	if e.globLen == nil {
+		e.globLen = map[string]int{}
+	}
+	e.globLen[init.S] = len(bs)
 	hn, hs := e.elemHeapName(SBV8)
 	h0 := hn + "@0"
 	e.predeclare(h0, fmt.Sprintf("(declare-const %s %s)", h0, hs))
